@@ -748,6 +748,9 @@ func reindexVariants(bound []*Term, body *Term) []*Term {
 			if !good || (r.IsNum() && r.Num.Sign() == 0) {
 				continue
 			}
+			if mentionsInnerBound(body, r) {
+				continue // the offset uses a variable bound by a quantifier inside the body: it cannot be moved out of its scope
+			}
 			dup := false
 			for _, x := range rests {
 				if sameTerm(x, r) {
@@ -832,4 +835,34 @@ func expandRange(bound []*Term, body *Term, universal bool, limit int64) (*Term,
 		return And(parts...), true
 	}
 	return Or(parts...), true
+}
+
+// mentionsInnerBound: does r use a variable that is bound by some quantifier nested inside body?
+func mentionsInnerBound(body, r *Term) bool {
+	inner := map[string]bool{}
+	var walk func(t *Term)
+	walk = func(t *Term) {
+		for _, b := range t.Bound {
+			inner[b.Op] = true
+		}
+		for _, a := range t.Args {
+			walk(a)
+		}
+	}
+	walk(body)
+	if len(inner) == 0 {
+		return false
+	}
+	found := false
+	var scan func(t *Term)
+	scan = func(t *Term) {
+		if len(t.Args) == 0 && inner[t.Op] {
+			found = true
+		}
+		for _, a := range t.Args {
+			scan(a)
+		}
+	}
+	scan(r)
+	return found
 }
